@@ -20,11 +20,14 @@ vars == <<cfg, pc, mol, res, out>>
 Phys2(px, s2) == VScale(s2, px)                         \* 2 * (scale * px) with scale = s2/2
 
 Cfgs == [Rstar : Truths, q : SearchSet, m : Perturbs, s2 : Scales2, kind : Kinds, model : Models, order : Orders, j : {0, 1}]
-Valid(c) == /\ (c.kind # "multi" => c.j = 0)
+Valid(c) == /\ (c.kind \notin {"multi", "stack"} => c.j = 0)
             /\ (c.Rstar.d # 1 => (c.kind = "single" /\ c.order = 3))      \* rational truths: one driver is enough
             /\ (c.kind # "single" => c.order = 3)
-            /\ (c.kind \in {"group", "notemplate", "multi"} => c.model = "ZNCC")
-            /\ (c.kind # "single" => c.s2 \in {1, 2} \/ c.kind = "batch")
+            /\ (c.kind \in {"group", "notemplate", "multi", "stack"} => c.model = "ZNCC")
+            /\ (c.kind # "single" => c.s2 \in {1, 2} \/ c.kind \in {"batch", "stack"})
+            \* "stack": loader.align(list of templates) dispatches to the multi-template path itself; a subset of
+            \* truths keeps the case count down
+            /\ (c.kind = "stack" => c.Rstar \in {RId, Rot(<<<<0,1,0>>,<<0,0,1>>,<<1,0,0>>>>, 1), Rot(<<<<-1,0,0>>,<<0,1,0>>,<<0,0,-1>>>>, 1)})
 PStarPx == <<15, 14, 16>>
 Init == /\ cfg \in {c \in Cfgs : Valid(c)}
         /\ pc = "plant" /\ mol = [p2 |-> <<0,0,0>>, R |-> RId] /\ res = [label |-> -1, shift |-> <<0,0,0>>, quat |-> RId]
